@@ -101,6 +101,8 @@ theorem pres_frame {r r' : RState} (hq : r'.s.queue = r.s.queue) (hn : r'.s.ntas
   · intro t; rw [h1, h2, h3, hq]; exact h.bal t
   · intro t ht; rw [h2, h3, hq]; exact h.fresh t (by rw [← hn]; exact ht)
 
+theorem pres_lg (r : RState) (cs : List Nat) : Pres r (lg r cs) := pres_frame rfl rfl rfl rfl rfl rfl rfl
+
 theorem pres_intoWaker (r : RState) (t : Nat) : Pres r (intoWaker r t) := by
   intro hg
   unfold intoWaker wkUp locDown at hg ⊢
@@ -219,13 +221,13 @@ theorem pres_vtWakeByRef (r : RState) (t : Nat) : Pres r (vtWakeByRef r t) :=
 theorem pres_wakeAllVal (ws : List Nat) (r : RState) : Pres r (wakeAllVal r ws) := by
   induction ws generalizing r with
   | nil => exact Pres.refl r
-  | cons w ws ih => exact (pres_vtWake r w).trans (ih _)
+  | cons w ws ih => exact ((pres_vtWake r w).trans (pres_lg _ _)).trans (ih _)
 
 theorem pres_wakeAllRef (ws : List Nat) (r : RState) : Pres r (wakeAllRef r ws) := by
   induction ws generalizing r with
   | nil => exact Pres.refl r
   | cons w ws ih =>
-    exact (((pres_vtClone r w).trans (pres_vtWakeByRef _ w)).trans (pres_vtDrop _ w)).trans (ih _)
+    exact ((((pres_vtClone r w).trans (pres_vtWakeByRef _ w)).trans (pres_vtDrop _ w)).trans (pres_lg _ _)).trans (ih _)
 
 theorem pres_rSignal (r : RState) (k : Nat) : Pres r (rSignal r k) := by
   unfold rSignal
@@ -280,7 +282,7 @@ theorem pres_rRunActs (t : Nat) (acts : Script) (r : RState) : Pres r (rRunActs 
   | case1 r => exact Pres.refl r
   | case2 _ r => exact Pres.refl r
   | case3 rest r =>
-    exact ((pres_vtWakeByRef r t).trans (pres_vtClone _ t)).trans (pres_vtWake _ t)
+    exact (((pres_vtWakeByRef r t).trans (pres_vtClone _ t)).trans (pres_vtWake _ t)).trans (pres_lg _ _)
   | case4 k rest r hk ih =>
     refine Pres.trans ?_ ih
     exact pres_frame rfl rfl rfl rfl rfl rfl rfl
@@ -458,12 +460,12 @@ theorem pres_rRun (r : RState) (op : XOp) : Pres r (rRun r op) := by
     simp only [rRun]; split
     · exact Pres.refl r
     · rename_i t _
-      refine Pres.trans ?_ (pres_vtWake _ t)
+      refine Pres.trans (Pres.trans ?_ (pres_vtWake _ t)) (pres_lg _ _)
       exact pres_frame rfl rfl rfl rfl rfl rfl rfl
   | byRef k i =>
     simp only [rRun]; split
     · exact Pres.refl r
-    · exact pres_vtWakeByRef r _
+    · exact (pres_vtWakeByRef r _).trans (pres_lg _ _)
   | clone k i =>
     simp only [rRun]; split
     · exact Pres.refl r
@@ -472,7 +474,7 @@ theorem pres_rRun (r : RState) (op : XOp) : Pres r (rRun r op) := by
     simp only [rRun]; split
     · exact Pres.refl r
     · rename_i t _
-      refine Pres.trans ?_ (pres_vtDrop _ t)
+      refine Pres.trans (Pres.trans ?_ (pres_vtDrop _ t)) (pres_lg _ _)
       exact pres_frame rfl rfl rfl rfl rfl rfl rfl
   | signal k => exact pres_rSignal r k
   | dropExec => simp only [rRun]; split; exact Pres.refl r; exact pres_rDropExec r
